@@ -2,6 +2,7 @@
 CONSTANTS Chans = {3} Rows = {14} Chars = {65} MaxPairs = 6
   Indents = {28} Depths = {2} Tabs = {1, 3}
   Kinds = {"RDC", "PAC", "BS", "DER", "TO", "TEXT"}
+  Beyond = {}
   Mix <- NoMix Bursts <- NoBurst
 SPECIFICATION GSpec
 VIEW gview2
